@@ -3,6 +3,7 @@ package dag
 import (
 	"errors"
 	"fmt"
+	"math"
 	"os"
 	"os/exec"
 	"regexp"
@@ -87,6 +88,9 @@ var (
 	)
 	errExecutorTypeMustBeString = errors.New(
 		"executor.type value must be string",
+	)
+	errExecutorConfigValueNotFinite = errors.New(
+		"executor config value must be a finite number",
 	)
 	errExecutorConfigValueMustBeMap = errors.New(
 		"executor.config value must be a map",
@@ -714,37 +718,49 @@ func convertMap(m map[string]any) error {
 		return nil
 	}
 
-	queue := []map[string]any{m}
-
-	for len(queue) > 0 {
-		curr := queue[0]
-
-		for k, v := range curr {
-			mm, ok := v.(map[any]any)
-			if !ok {
-				// TODO: do we need to return an error here?
-				continue
-			}
-
-			ret := make(map[string]any)
-			for kk, vv := range mm {
-				key, err := parseKey(kk)
-				if err != nil {
-					return fmt.Errorf(
-						"%w: %s", errExecutorConfigMustBeString, err,
-					)
-				}
-				ret[key] = vv
-			}
-
-			delete(curr, k)
-			curr[k] = ret
-			queue = append(queue, ret)
+	for k, v := range m {
+		cv, err := convertValue(v)
+		if err != nil {
+			return err
 		}
-		queue = queue[1:]
+		m[k] = cv
 	}
 
 	return nil
+}
+
+// convertValue converts nested map[any]any values (also inside lists) to
+// map[string]any so that the step can be encoded as JSON.
+func convertValue(v any) (any, error) {
+	switch val := v.(type) {
+	case map[any]any:
+		ret := make(map[string]any)
+		for kk, vv := range val {
+			key, err := parseKey(kk)
+			if err != nil {
+				return nil, fmt.Errorf("%w: %s", errExecutorConfigMustBeString, err)
+			}
+			cv, err := convertValue(vv)
+			if err != nil {
+				return nil, err
+			}
+			ret[key] = cv
+		}
+		return ret, nil
+	case []any:
+		for i := range val {
+			cv, err := convertValue(val[i])
+			if err != nil {
+				return nil, err
+			}
+			val[i] = cv
+		}
+	case float64:
+		if math.IsNaN(val) || math.IsInf(val, 0) {
+			return nil, fmt.Errorf("%w: %v", errExecutorConfigValueNotFinite, val)
+		}
+	}
+	return v, nil
 }
 
 // buildConfigEnv builds the environment variables from the map.
